@@ -11,7 +11,12 @@
 //	        (integers and time.Duration as Int, in nanoseconds; strings as String; booleans as Bool); a name
 //	        `pkg.Name` denotes a constant of a package the site's file imports under the local name pkg.
 //	struct  a package-level `var X = T{Field: constexpr, …}` composite literal: the listed fields, evaluated.
-//	map     a package-level `var X = map[K]V{k: v, …}` literal with constant keys and values: a list of pairs, sorted by key.
+//	map     a package-level `var X = map[K]V{k: v, …}` (or keyed array `[N]V{i: v, …}`) literal with constant keys and
+//	        values: a list of pairs, sorted by key.
+//	literals every composite literal of a given type (as written: "http.Client") in the file or in one function: the list
+//	        of its (field, value source text) pairs — to state that every constructor sets a field.
+//	callargs the argument list of the first call in a function whose callee matches "start_re", each argument as
+//	        `callee("CONST",…)`: the order in which e.g. environment option readers are applied.
 //	boolfn  a function with a single bool result whose body is in the skel subset: every `return e` becomes the
 //	        condition e; the definition has type Bool (e.g. a character-class predicate over rune comparisons).
 //	litlist the unique `field: []T{c1, c2, …}` key-value pair inside a function whose elements are numeric constants
@@ -47,6 +52,10 @@
 //	        "marks": a skipped simple statement whose text matches a marks regexp contributes its label to every leaf
 //	        reached after it on that path; such a site has type `String × List String` (tag, effects of the path in
 //	        order), e.g. `("<end>", ["code", "desc", "set"])`; a label may mention `${v}` of a tracked variable.
+//	        A mark is [pattern, label]; every mark must match a statement on at least one path (a pinned statement
+//	        that vanished or was re-spelled is a translation error, not a silently shorter effects list) unless it is
+//	        written [pattern, label, "optional"] (catch-all patterns such as "any other assignment to x").  Likewise
+//	        a tracked variable must be assigned a constant on some path.
 //	        Other statements are skipped only if they contain no return statement and do not assign to an identifier
 //	        that occurs in an atom/int/str expression — unless their text matches one of the "allow" regexps.
 //
@@ -94,8 +103,9 @@ type Site struct {
 	Var      string      `json:"var"`
 	Fields   []string    `json:"fields"`
 	Field    string      `json:"field"`
+	Type     string      `json:"type"`
 	Track    []string    `json:"track"`
-	Marks    [][2]string `json:"marks"`
+	Marks    [][]string  `json:"marks"`
 	Selects  [][2]string `json:"selects"`
 }
 
@@ -500,8 +510,12 @@ func genMap(p *pkgInfo, s Site, out *strings.Builder) {
 	}
 	if tv, ok := p.info.Types[lit]; !ok || tv.Type == nil {
 		die("%s: %s: untyped literal", s.File, s.Var)
-	} else if _, ok := tv.Type.Underlying().(*types.Map); !ok {
-		die("%s: %s is not a map literal", s.File, s.Var)
+	} else {
+		switch tv.Type.Underlying().(type) {
+		case *types.Map, *types.Array, *types.Slice: // `[N]T{k: v, …}` with explicit indices is a finite map too
+		default:
+			die("%s: %s is not a map (or keyed array) literal", s.File, s.Var)
+		}
 	}
 	type kv struct{ k, v string }
 	var kvs []kv
@@ -536,6 +550,81 @@ func genMap(p *pkgInfo, s Site, out *strings.Builder) {
 		s.Var, s.File, s.Prefix, leanIdent(s.Var), kty, vty, strings.Join(items, ", "))
 }
 
+// genLiterals: every composite literal of the type written s.Type (e.g. "http.Client", "client") in the file — or in
+// the function s.Func if given — as the list of its (field, value source text) pairs, in source order.  At least one
+// literal must exist.  Used to state "every place that constructs a T sets field F".
+func genLiterals(p *pkgInfo, file *ast.File, s Site, out *strings.Builder) {
+	var root ast.Node = file
+	if s.Func != "" {
+		fd := findFunc(p, file, s.Func)
+		if fd == nil {
+			die("%s: no function %s", s.File, s.Func)
+		}
+		root = fd
+	}
+	var lits []string
+	ast.Inspect(root, func(n ast.Node) bool {
+		cl, ok := n.(*ast.CompositeLit)
+		if !ok || cl.Type == nil || p.text(cl.Type) != s.Type {
+			return true
+		}
+		var kvs []string
+		for _, e := range cl.Elts {
+			kv, ok := e.(*ast.KeyValueExpr)
+			if !ok {
+				// positional element (slice / array literal): the key is its index
+				kvs = append(kvs, "("+leanString(fmt.Sprint(len(kvs)))+", "+leanString(p.text(e))+")")
+				continue
+			}
+			kvs = append(kvs, "("+leanString(p.text(kv.Key))+", "+leanString(p.text(kv.Value))+")")
+		}
+		lits = append(lits, "["+strings.Join(kvs, ", ")+"]")
+		return true
+	})
+	if len(lits) == 0 {
+		die("%s: no composite literal of type %s (site %s)", s.File, s.Type, s.Name)
+	}
+	fmt.Fprintf(out, "/-- every composite literal `%s{…}` in %s %s: its (field, value text) pairs, in source order -/\ndef %s : List (List (String × String)) :=\n  [%s]\n\n",
+		s.Type, s.File, s.Func, s.Name, strings.Join(lits, ",\n   "))
+}
+
+// genCallArgs: the argument list of the first call in function s.Func whose callee text matches s.StartRe, each
+// argument rendered as `callee("CONST", …)` (callee text plus its constant string arguments) or, if it is not a call,
+// as its source text: the ORDER in which e.g. environment readers are applied.
+func genCallArgs(p *pkgInfo, file *ast.File, s Site, out *strings.Builder) {
+	fd := findFunc(p, file, s.Func)
+	if fd == nil {
+		die("%s: no function %s", s.File, s.Func)
+	}
+	re := regexp.MustCompile(s.StartRe)
+	var call *ast.CallExpr
+	ast.Inspect(fd.Body, func(n ast.Node) bool {
+		if c, ok := n.(*ast.CallExpr); ok && call == nil && re.MatchString(p.text(c.Fun)) {
+			call = c
+		}
+		return call == nil
+	})
+	if call == nil {
+		die("%s: function %s contains no call of /%s/", s.File, s.Func, s.StartRe)
+	}
+	var items []string
+	for _, a := range call.Args {
+		if c, ok := a.(*ast.CallExpr); ok {
+			var strs []string
+			for _, x := range c.Args {
+				if tv, ok := p.info.Types[x]; ok && tv.Value != nil && tv.Value.Kind() == constant.String {
+					strs = append(strs, constant.StringVal(tv.Value))
+				}
+			}
+			items = append(items, leanString(p.text(c.Fun)+"("+strings.Join(strs, ",")+")"))
+		} else {
+			items = append(items, leanString(p.text(a)))
+		}
+	}
+	fmt.Fprintf(out, "/-- the arguments of the call `%s(…)` in `%s`, %s, in order (callee and constant string arguments) -/\ndef %s : List String :=\n  [%s]\n\n",
+		p.text(call.Fun), s.Func, s.File, s.Name, strings.Join(items, ", "))
+}
+
 func quoteList(xs []string) string {
 	var q []string
 	for _, x := range xs {
@@ -561,6 +650,8 @@ type skel struct {
 	until   *regexp.Regexp       // "until_re": translation stops (leaf "<cut>") at the first statement matching it
 	occ     map[token.Pos]string // atoms configured with a trailing '#': one Bool parameter per source occurrence
 	marks   []*regexp.Regexp
+	markHit []bool            // marks matched by at least one statement on some translated path
+	trkSeen map[string]bool   // tracked variables assigned on some translated path
 	path    []string          // labels of the "marks" statements passed on the current path
 	env     map[string]string // tracked local variables ("track"): the constant last assigned on the current path
 	boolRet bool              // translating the body of an inlined Boolean helper: `return e` becomes the condition e
@@ -641,6 +732,14 @@ func (k *skel) cond(e ast.Expr) string {
 				if x.Op == token.NEQ {
 					other = " == "
 				}
+				same := " == "
+				if x.Op == token.NEQ {
+					same = " != "
+				}
+				// `b == a` for a configured atom `a == b`
+				if n, ok := k.atoms[k.p.text(x.Y)+same+k.p.text(x.X)]; ok {
+					return n
+				}
 				for _, pr := range [][2]ast.Expr{{x.X, x.Y}, {x.Y, x.X}} {
 					if n, ok := k.atoms[k.p.text(pr[0])+other+k.p.text(pr[1])]; ok {
 						return "(!" + n + ")"
@@ -716,7 +815,7 @@ func (k *skel) inlineCall(call *ast.CallExpr) (string, bool) {
 		return "", false
 	}
 	c := &skel{p: k.p, s: k.s, atoms: map[string]string{}, ints: map[string]string{}, strs: map[string]string{},
-		guarded: map[string]bool{}, env: map[string]string{}, boolRet: true, depth: k.depth + 1}
+		guarded: map[string]bool{}, env: map[string]string{}, trkSeen: map[string]bool{}, boolRet: true, depth: k.depth + 1}
 	for i := 0; i < sig.Params().Len(); i++ {
 		pv := sig.Params().At(i)
 		name, arg := pv.Name(), call.Args[i]
@@ -864,6 +963,7 @@ func (k *skel) block(stmts []ast.Stmt, rest [][]ast.Stmt, ind string) string {
 	}
 	cont := append([][]ast.Stmt{after}, rest...)
 	if name, val, ok := k.trackedAssign(st); ok {
+		k.trkSeen[name] = true
 		old, had := k.env[name]
 		k.env[name] = val
 		r := k.block(after, rest, ind)
@@ -980,9 +1080,10 @@ func (k *skel) block(stmts []ast.Stmt, rest [][]ast.Stmt, ind string) string {
 				if br, ok := body[n-1].(*ast.BranchStmt); ok {
 					if br.Tok == token.BREAK && br.Label == nil {
 						body = body[:n-1]
-					} else {
+					} else if br.Tok == token.BREAK || br.Tok == token.FALLTHROUGH {
 						k.fail(br, "`%s` in a switch clause is not supported", br.Tok)
 					}
+					// continue / goto leave the switch AND the translated list: ordinary leaves
 				}
 			}
 			for _, b := range body {
@@ -990,7 +1091,7 @@ func (k *skel) block(stmts []ast.Stmt, rest [][]ast.Stmt, ind string) string {
 					if _, ok := m.(*ast.FuncLit); ok {
 						return false
 					}
-					if br, ok := m.(*ast.BranchStmt); ok {
+					if br, ok := m.(*ast.BranchStmt); ok && (br.Tok == token.BREAK || br.Tok == token.FALLTHROUGH) {
 						k.fail(br, "`%s` inside a switch clause is not supported", br.Tok)
 					}
 					return true
@@ -1050,6 +1151,7 @@ func (k *skel) block(stmts []ast.Stmt, rest [][]ast.Stmt, ind string) string {
 		}
 		for i, re := range k.marks {
 			if re.MatchString(k.p.text(st)) {
+				k.markHit[i] = true
 				label := k.s.Marks[i][1]
 				for _, v := range k.s.Track {
 					if strings.Contains(label, "${"+v+"}") {
@@ -1233,8 +1335,17 @@ func genSkel(p *pkgInfo, file *ast.File, s Site, out *strings.Builder) {
 				k.occ = map[token.Pos]string{}
 			}
 			base, n := strings.TrimSuffix(a[1], "#"), 0
+			lhs := map[token.Pos]bool{} // the variable being (re)defined is not a read of it
 			ast.Inspect(fd.Body, func(m ast.Node) bool {
-				if ex, ok := m.(ast.Expr); ok && p.text(ex) == norm(a[0]) {
+				if as, ok := m.(*ast.AssignStmt); ok {
+					for _, l := range as.Lhs {
+						lhs[l.Pos()] = true
+					}
+				}
+				return true
+			})
+			ast.Inspect(fd.Body, func(m ast.Node) bool {
+				if ex, ok := m.(ast.Expr); ok && !lhs[ex.Pos()] && p.text(ex) == norm(a[0]) {
 					n++
 					name := fmt.Sprintf("%s%d", base, n)
 					k.occ[ex.Pos()] = name
@@ -1296,8 +1407,13 @@ func genSkel(p *pkgInfo, file *ast.File, s Site, out *strings.Builder) {
 		k.allow = append(k.allow, regexp.MustCompile(r))
 	}
 	for _, r := range s.Marks {
+		if len(r) < 2 || len(r) > 3 || (len(r) == 3 && r[2] != "optional") {
+			die("site %s: a mark is [pattern, label] or [pattern, label, \"optional\"]", s.Name)
+		}
 		k.marks = append(k.marks, regexp.MustCompile(r[0]))
 	}
+	k.markHit = make([]bool, len(s.Marks))
+	k.trkSeen = map[string]bool{}
 	if s.UntilRe != "" {
 		k.until = regexp.MustCompile(s.UntilRe)
 	}
@@ -1353,6 +1469,18 @@ func genSkel(p *pkgInfo, file *ast.File, s Site, out *strings.Builder) {
 		stmts = found
 	}
 	body := k.block(stmts, nil, "  ")
+	// a pinned statement that disappeared or was re-spelled would silently drop out of every effects list: that is
+	// "site not translatable any more", not a different decision
+	for i, r := range s.Marks {
+		if !k.markHit[i] && len(r) == 2 {
+			die("%s (site %s): no statement on any path matches the mark %q (label %s); mark it \"optional\" if it is a catch-all", s.File, s.Name, r[0], r[1])
+		}
+	}
+	for _, v := range s.Track {
+		if !k.trkSeen[v] {
+			die("%s (site %s): the tracked variable %s is never assigned a constant on any path", s.File, s.Name, v)
+		}
+	}
 	what := "decision skeleton of `" + s.Func + "`"
 	if s.Start != "" {
 		what += " from the statement `" + s.Start + " …`"
@@ -1441,6 +1569,10 @@ func main() {
 			genLitList(p, file, s, &out)
 		case "map":
 			genMap(p, s, &out)
+		case "literals":
+			genLiterals(p, file, s, &out)
+		case "callargs":
+			genCallArgs(p, file, s, &out)
 		default:
 			die("unknown site kind %q", s.Kind)
 		}
